@@ -346,7 +346,7 @@ def run_ka_map(ck):
     out_c, status, err = run_proc(h, text, 15 if ck.quick else 90)
     tnorm = time.time() - t0
     out_m = ck.run_drv(text) if ck.drv_ok else None
-    small_timeout = max(3.0, 4 * tnorm)
+    small_timeout = 3.0 if status == "timeout" else max(3.0, 4 * tnorm)
 
     def fails_ref(ops):
         o, st, _ = run_proc(h, "\n".join(ops) + "\n", small_timeout)
@@ -357,12 +357,12 @@ def run_ka_map(ck):
         o, st, _ = run_proc(h, txt, small_timeout)
         return st == "ok" and map_ref_check(ops, o) is None and o != ck.run_drv(txt)
 
+    # pass 1: the implementation's own answers against the dictionary reference (a failing input)
     pos = 0
     maxcap = 0
     for kind, ops in hs:
         n = len(ops)
         oc = out_c[pos:pos + n]
-        om = out_m[pos:pos + n] if out_m is not None else None
         pos += n
         ck.count(("map", kind, n, ops[1][:40] if n > 1 else ""))
         bad = map_ref_check(ops, oc)
@@ -383,11 +383,18 @@ def run_ka_map(ck):
         for l in oc:
             if l and l[0].isdigit() and " " in l:
                 maxcap = max(maxcap, int(l.split()[1]))
+    # pass 2: correspondence with the model (slot indices, cap, layout)
+    pos = 0
+    for kind, ops in hs:
+        n = len(ops)
+        oc = out_c[pos:pos + n]
+        om = out_m[pos:pos + n] if out_m is not None else None
+        pos += n
         if om is not None and oc != om:
             i = common.diff_lines(oc, om)
             small = shrink(ops[:i + 1], differs_model)
             ck.violation({"kind": "correspondence", "what": "map.c and Model/Map.lean disagree (slot index / cap / "
-                          "layout) although map.c behaves like a dictionary on this history",
+                          "layout) although map.c behaves like a dictionary on every generated history",
                           "history_kind": kind, "ops": small, "impl": oc[i][:300], "model": om[i][:300],
                           "theorem": "CprocVerif.C16.map_refines (the model no longer describes map.c)"}, nofail=True)
             return
@@ -551,7 +558,7 @@ def run_ka_scope(ck):
     t0 = time.time()
     oc, status, err = run_proc(h, text, 15 if ck.quick else 90)
     tnorm = time.time() - t0
-    small_timeout = max(3.0, 4 * tnorm)
+    small_timeout = 3.0 if status == "timeout" else max(3.0, 4 * tnorm)
     ck.count(("scope-history", len(ops)))
     if "hash-mismatch" in oc:
         raise common.Broken("checks/c16.py: fnv() differs from /repo/map.c mapkey() - update the check")
@@ -1229,6 +1236,14 @@ def run_macros(ck, cc, names, d):
     table = {}
     src, expect = [], []
     val = 0
+    for name in nm[:48]:          # a miss lookup in every early table state
+        val += 1
+        table[name] = val
+        src.append("#define %s %d" % (name, val))
+        src.append("chk_%d = %s ;" % (len(expect), nm[-1]))
+        expect.append((nm[-1], nm[-1]))
+        src.append("chk_%d = %s ;" % (len(expect), name))
+        expect.append((name, str(val)))
     for _ in range(nlines):
         name = rng.choice(nm[:50] if rng.random() < 0.3 else nm)
         r = rng.random()
